@@ -52,7 +52,10 @@ int64_t clockRead()
 
 bool watched(const char *path)
 {
-    return path && !g_dir.empty() && strncmp(path, g_dir.c_str(), g_dir.size()) == 0;
+    if (!path || g_dir.empty()) return false;
+    if (strncmp(path, g_dir.c_str(), g_dir.size()) == 0) return true;
+    // the directory itself (without the trailing slash): open(dir, O_TMPFILE) creates an anonymous file in it (QSaveFile, QTemporaryFile)
+    return strlen(path) + 1 == g_dir.size() && strncmp(path, g_dir.c_str(), g_dir.size() - 1) == 0;
 }
 
 std::string slurp(const char *path, bool *ok)
@@ -143,7 +146,7 @@ int doOpen(int dirfd, const char *path, int flags, mode_t mode, const char *name
     const bool writing = (flags & O_ACCMODE) != O_RDONLY;
     if (w && writing) {
         bool existed = syscall(SYS_faccessat, AT_FDCWD, path, F_OK) == 0;
-        g_gateCreating = !existed && (flags & O_CREAT);
+        g_gateCreating = (!existed && (flags & O_CREAT)) || (flags & O_TMPFILE) == O_TMPFILE;
         int g = gate(name);
         g_gateCreating = false;
         if (g == 1) {
